@@ -29,14 +29,14 @@ def confirm(cid, k):
     rc, out = sh("git apply %s/patch%s.diff" % (o, k), w)
     if rc != 0:
         return {"applies": False, "log": out[-500:]}
-    rc, out = sh("cargo test --offline 2>&1 | grep -E '^test result|^error' | head -3", w)
+    rc, out = sh("cargo test --offline 2>&1 | grep -E '^test result:|^error' | head -3", w)
     suite = out.strip().replace("\n", " | ")
     os.makedirs(w + "/tests", exist_ok=True)
     shutil.copy("%s/demo%s.rs" % (o, k), w + "/tests/demo.rs")
-    rc, out = sh("cargo test --offline --test demo 2>&1 | grep -E '^test result|^error' | head -1", w)
+    rc, out = sh("cargo test --offline --test demo 2>&1 | grep -E '^test result:|^error' | head -1", w)
     with_change = out.strip()
     sh("git checkout -q -- .", w)
-    rc, out = sh("cargo test --offline --test demo 2>&1 | grep -E '^test result|^error' | head -1", w)
+    rc, out = sh("cargo test --offline --test demo 2>&1 | grep -E '^test result:|^error' | head -1", w)
     without = out.strip()
     sh("rm -rf tests", w)
     ok = ("75 passed; 0 failed" in suite and "FAILED" not in suite and ("FAILED" in with_change or "error: test failed" in with_change) and "ok." in without and "FAILED" not in without)
